@@ -565,6 +565,43 @@ theorem C08_cex_clear_reserved :
       [(.clear 0, some .crashNegative, 128), (.get, some (.stream 0 true), 127)] := by
   decide
 
+/-! ### `Clear` of a NEGATIVE argument (proposed finding KF-C08-3)
+
+Full statement ("releasing reports whether the id was in use, … the available count always equals the number of
+non-reserved ids not handed out") for EVERY `int` argument of `Clear`. Every theorem of this file takes the id as a
+`Nat` (that is the excluding hypothesis: `0 ≤ stream`); for a negative argument the unchanged code does NOT satisfy
+the statement: -/
+
+/-- what `Clear(-k)` does, for every state and every `k ≥ 1`: no bit ever changes; for `k ≤ 63` the counter is
+    decremented — `Available()` grows by one although nothing was released — and the call answers true (or panics
+    'negative streams inuse'); for `k ≥ 64` it panics with an index error and changes nothing. -/
+theorem C08_clear_negative_effect (sh : Shared) (k : Nat) :
+    (clearNeg sh k).1.words = sh.words ∧
+    (k < 64 → available (clearNeg sh k).1 = available sh + 1 ∧
+      ((clearNeg sh k).2 = some (.cleared true) ∨ (clearNeg sh k).2 = some .crashNegative)) ∧
+    (64 ≤ k → clearNeg sh k = (sh, some .crashIndex)) := by
+  unfold clearNeg
+  by_cases h : 64 ≤ k
+  · simp only [h, ↓reduceIte]
+    exact ⟨trivial, fun h' => by omega, fun _ => trivial⟩
+  · simp only [h, ↓reduceIte]
+    refine ⟨trivial, fun _ => ⟨by simp only [available]; omega, ?_⟩, fun h' => by simp at h'⟩
+    split
+    · exact Or.inr rfl
+    · exact Or.inl rfl
+
+set_option maxRecDepth 100000 in
+/-- kernel-checked counterexample: 128-id generator, id 1 handed out (126 ids free). `Clear(-1)` answers true,
+    changes no bit, and `Available()` is 127; on a fresh generator it panics 'negative streams inuse', `Clear(-64)`
+    panics with an index error. Reproduced on the real code by `seq 2 g n1 a s g a`. -/
+theorem C08_cex_clear_negative :
+    (clearNeg (getStream (init 2)).1 1).2 = some (.cleared true) ∧
+    (clearNeg (getStream (init 2)).1 1).1.words = (getStream (init 2)).1.words ∧
+    available (clearNeg (getStream (init 2)).1 1).1 = 127 ∧
+    countBelow (bitAt (getStream (init 2)).1.words) 128 = 2 ∧
+    (clearNeg (init 2) 1).2 = some .crashNegative ∧ (clearNeg (init 2) 64).2 = some .crashIndex := by
+  decide
+
 /-! ### sequential use, all op sequences -/
 
 /-- sequential use, ALL sequences of `GetStream` / `Clear(id)` (any id ≠ 0: held, free, released twice,
